@@ -1722,6 +1722,7 @@ func (self *LockDB) doTimeOut(lock *Lock, forcedExpried bool, removeWaited bool)
 	lockLocked := lock.locked
 	lock.timeouted = true
 	lockProtocol, lockCommand := lock.protocol, lock.command
+	requireWakeup := false
 
 	if lockLocked > 0 {
 		lockManager.locked -= uint32(lockLocked)
@@ -1745,6 +1746,7 @@ func (self *LockDB) doTimeOut(lock *Lock, forcedExpried bool, removeWaited bool)
 		if lockManager.GetWaitLock() == nil {
 			lockManager.waited = false
 		}
+		requireWakeup = lockManager.waited && lockManager.locked > 0
 		lockManager.state.WaitCount--
 		if self.subscribeChannels != nil && lock.command.TimeoutFlag&protocol.TIMEOUT_FLAG_PUSH_SUBSCRIBE != 0 {
 			_ = self.subscribeChannels[lockManager.glockIndex].Push(lockCommand, protocol.RESULT_TIMEOUT, uint16(lockManager.locked), lock.locked, lockManager.GetLockData())
@@ -1789,6 +1791,9 @@ func (self *LockDB) doTimeOut(lock *Lock, forcedExpried bool, removeWaited bool)
 			_ = self.PushExecutorLockCommand(lockProtocol, lockCommand)
 		} else {
 			_ = lockProtocol.FreeLockCommandLocked(lockCommand)
+		}
+		if requireWakeup {
+			self.wakeUpWaitLocks(lockManager, nil)
 		}
 	}
 }
@@ -2709,6 +2714,7 @@ func (self *LockDB) cancelWaitLock(lockManager *LockManager, command *protocol.L
 		self.RemoveLongTimeOut(waitLock)
 	}
 	lockProtocol, lockCommand := waitLock.protocol, waitLock.command
+	requireWakeup := false
 
 	if lockLocked > 0 {
 		lockManager.locked -= uint32(lockLocked)
@@ -2720,6 +2726,7 @@ func (self *LockDB) cancelWaitLock(lockManager *LockManager, command *protocol.L
 		if lockManager.GetWaitLock() == nil {
 			lockManager.waited = false
 		}
+		requireWakeup = lockManager.waited && lockManager.locked > 0
 		lockManager.state.WaitCount--
 	}
 
@@ -2734,7 +2741,7 @@ func (self *LockDB) cancelWaitLock(lockManager *LockManager, command *protocol.L
 	_ = lockProtocol.ProcessLockResultCommandLocked(lockCommand, protocol.RESULT_UNLOCK_ERROR, uint16(lockManager.locked), waitLock.locked, lockManager.GetLockData())
 	_ = lockProtocol.FreeLockCommandLocked(lockCommand)
 
-	if lockLocked > 0 {
+	if lockLocked > 0 || requireWakeup {
 		self.wakeUpWaitLocks(lockManager, nil)
 	}
 }
